@@ -54,6 +54,8 @@ QUERIES = [
     ('select', 'select top 2 *'),
     ('except', 'select * except a2'),
     ('except', 'select * except a1, a3'),
+    ('except', 'select * except a3'),
+    ('except', 'select * except a4'),
     ('aggregate', 'select a2, count(*), ARRAY_AGG(a1) group by a2'),
     ('aggregate', 'select max(a1), min(a2)'),
     ('unnest', "select a1, unnest(a3.split(';'))"),
